@@ -292,6 +292,9 @@ pub struct Args {
     pub only_gen: Option<String>,
     pub scale: f64,
     pub stall_s: u64,
+    /// File in which every worker keeps the case it is running (one 96-byte slot per worker),
+    /// so that the driver can name the case when the process is killed by a signal.
+    pub crashfile: Option<String>,
 }
 
 fn parse_args() -> Args {
@@ -306,6 +309,7 @@ fn parse_args() -> Args {
         only_gen: None,
         scale: 1.0,
         stall_s: 120,
+        crashfile: None,
     };
     let mut i = 1;
     while i < a.len() {
@@ -347,6 +351,10 @@ fn parse_args() -> Args {
             "--stall" => {
                 i += 1;
                 args.stall_s = a[i].parse().expect("stall");
+            }
+            "--crashfile" => {
+                i += 1;
+                args.crashfile = Some(a[i].clone());
             }
             p if !p.starts_with("--") && args.prop.is_empty() => args.prop = p.to_string(),
             other => panic!("unknown argument {}", other),
@@ -426,6 +434,12 @@ pub fn main(monitors: &[&dyn Monitor]) {
     let stalls: Mutex<Vec<Value>> = Mutex::new(vec![]);
     let chunk: u64 = (total / (nthreads as u64 * 64)).clamp(1, 4096);
     let (shard_i, shard_n) = args.shard;
+    let crashfile: Option<std::fs::File> = args.crashfile.as_ref().and_then(|p| {
+        let f = std::fs::OpenOptions::new().create(true).write(true).truncate(true).open(p).ok()?;
+        f.set_len(96 * nthreads as u64).ok()?;
+        Some(f)
+    });
+    let crashfile = &crashfile;
 
     std::thread::scope(|s| {
         for t in 0..nthreads {
@@ -457,10 +471,23 @@ pub fn main(monitors: &[&dyn Monitor]) {
                         }
                         prog.0.store(pos, Ordering::Relaxed);
                         prog.1.fetch_add(1, Ordering::Relaxed);
+                        if let Some(f) = crashfile {
+                            use std::os::unix::fs::FileExt;
+                            let mut slot = [b' '; 96];
+                            let txt = format!("{} {}\n", gens[gi].name, off);
+                            let n = txt.len().min(95);
+                            slot[..n].copy_from_slice(&txt.as_bytes()[..n]);
+                            slot[95] = b'\n';
+                            let _ = f.write_at(&slot, 96 * t as u64);
+                        }
                         run_one(m, gens[gi].name, off, seed, &mut col);
                     }
                 }
                 prog.0.store(u64::MAX, Ordering::Relaxed);
+                if let Some(f) = crashfile {
+                    use std::os::unix::fs::FileExt;
+                    let _ = f.write_at(&[b' '; 95], 96 * t as u64);
+                }
                 merged.lock().unwrap().merge(col);
                 done.fetch_add(1, Ordering::Relaxed);
             });
